@@ -12,7 +12,7 @@ from harness import replay as rp
 from harness.drivers import shampoo_props as sp
 
 OWN = re.compile(r"\.value\.|\.shape\.|trace\.(refresh|usegraft|step|stepped|rootAt|calls|active|reached|raised)$"
-                 r"|spec\.(RefreshTiming|RefreshComplete|OncePerStep|StepCounter)|own_buffer_updated|untouched_after_abort|group_independence|dtype_plumbing")
+                 r"|spec\.(RefreshTiming|RefreshComplete|OncePerStep|StepCounter)|own_buffer_updated|root_changed_without|computed_root_not_stored|untouched_after_abort|group_independence|dtype_plumbing")
 
 
 def owns(clause, p=None):
